@@ -99,7 +99,9 @@ def register(reg):
                               "implies(ncalls('popall') == 1, ncalls('remove') == 1 and ncalls('extend') == 1 and ncalls('recalc') == 1 and "
                               "called_with('remove', lambda arg0: arg0[1] == result[1]))",
                               "ncalls('popall') <= 1", "implies(not consume, ncalls('popall') == 0)"],
-                          loops={0: {"inv": ["True"], "iter_post": ["ncalls('popall') == 0"]}},
+                          # completeness, from the statement ("a request URL that extends a capability URL ... resolves to that capability"):
+                          # an iteration that does not return had a granted URL the request does not extend
+                          loops={0: {"inv": ["True"], "iter_post": ["ncalls('popall') == 0", "not url.startswith(cap_url)"]}},
                           frame=[], **common))
 
     def twice():
